@@ -135,9 +135,7 @@ impl MT205 {
     /// Check if this message has reject codes
     pub fn has_reject_codes(&self) -> bool {
         if let Some(ref info) = self.sender_to_receiver {
-            info.information
-                .iter()
-                .any(|line| line.contains("/REJT/"))
+            info.information.iter().any(|line| line.contains("/REJT/"))
         } else {
             false
         }
@@ -146,9 +144,7 @@ impl MT205 {
     /// Check if this message has return codes
     pub fn has_return_codes(&self) -> bool {
         if let Some(ref info) = self.sender_to_receiver {
-            info.information
-                .iter()
-                .any(|line| line.contains("/RETN/"))
+            info.information.iter().any(|line| line.contains("/RETN/"))
         } else {
             false
         }
